@@ -126,6 +126,15 @@ Definition law_sums c := law_with sums_okb no_guard c.
 Definition law_caps c := law_with caps_okb no_guard c.
 Definition law_delete c := law_with (fun _ => true) (delete_guardb c) c.
 
+(* the deletion clause of the property text at full strength: an admitted DELETE never targets a
+   queue whose status shows allocated pods, whatever the configuration *)
+Definition delete_allocb (Q : queues) (r : req) : bool :=
+  match r with
+  | Delete n => match Q !! n with Some s => bool_decide (qalloc s = 0) | None => true end
+  | _ => true
+  end.
+Definition law_delete_alloc c := law_with (fun _ => true) delete_allocb c.
+
 (* the real capacity plugin accepted the hierarchy the history ended in *)
 Fixpoint replay_final (Q : queues) (rs : list req) (vs : list Z) : queues :=
   match rs, vs with
